@@ -644,7 +644,7 @@ def run(ctx, replay=None):
         kinds = ["uniform", "loguniform", "reverseloguniform", "randint", "lograndint", "quniform", "qloguniform",
                  "qrandint", "qlograndint", "choice", "ordinal_equal", "ordinal_nn", "ordinal_nnlog", "finrange",
                  "logfinrange"]
-        specs = [gen_spec(rng, k) for k in kinds for _ in range(ctx.n(14, 150))]
+        specs = [gen_spec(rng, k) for k in kinds for _ in range(ctx.n(8, 150))]
         # the probes of DESIGN section 7 and other fixed corner cases, always part of the run
         specs += [dict(kind="qrandint", lower=1, upper=10, q=4), dict(kind="quniform", lower=0.1, upper=0.3, q=0.1),
                   dict(kind="qrandint", lower=0, upper=8, q=4), dict(kind="quniform", lower=0.5, upper=2.0, q=0.5),
@@ -931,12 +931,12 @@ def range_cases(ctx, C, spec, active, dom, adom, hpr, rng, count, scale):
         vecs.append(v)
     else:
         vecs += [[0.0], [1.0], [0.5], [rng.random()], [rng.random()]]
-        vecs += [[t] for t in thresholds_unit(spec, rng)[:10]]
+        vecs += [[t] for t in thresholds_unit(spec, rng)[:ctx.n(6, 15)]]
     inb = []
     if ok:
         inb.append([a for a, b in bounds])
         inb.append([b for a, b in bounds])
-        for _ in range(3):
+        for _ in range(ctx.n(2, 3)):
             inb.append([a + (b - a) * rng.random() for a, b in bounds])
             inb[-1] = [min(max(x, a), b) for x, (a, b) in zip(inb[-1], bounds)]
     for v, in_bounds in [(v, False) for v in vecs] + [(v, True) for v in inb]:
@@ -1011,7 +1011,7 @@ def space_cases(ctx, C, rng, cs, make_hpr, spaces):
              "ordinal_nn", "ordinal_nnlog", "finrange", "logfinrange"]
     if spaces is None:
         spaces = []
-        for _ in range(ctx.n(60, 800)):
+        for _ in range(ctx.n(40, 800)):
             n = rng.randint(2, 5)
             names = rng.sample(["lr", "wd", "layers", "act", "bs", "mom", "drop", "zeta", "alpha", "epochs"], n)
             sp = {}
